@@ -521,6 +521,9 @@ func (r *Router) watchAllHandlersStopped(ctx context.Context) {
 				verifhook.At("router.life.watch.closed_seen")
 				// let's avoid goroutine leak
 				return
+			case <-ctx.Done():
+				// the Run context was cancelled before any handler was added:
+				// there is nothing to wait for, close the router so that Run returns
 			}
 		}
 
